@@ -546,6 +546,54 @@ example : let s := runActs false 1 (init [2, 1, 1]) deadlockSchedule
 
 example : stuck false 1 (runActs false 1 (init [2, 1, 1]) deadlockSchedule) = false := by decide
 
+/-! ### the general shape of the deadlock (any capacity, any number of workers) -/
+
+/-- The index stage waits for the write lock, the writer queue is full, some worker is inside the blocking `send` (so it
+holds the raw_packer lock), some worker holds the READ guard, and every worker is outside `add_raw`, in `send`, or waiting for
+the raw_packer lock: nothing is enabled — whatever `cap` and however many workers. -/
+theorem stuck_of_blocked_readers {keep : Bool} {cap : Nat} {s : LSt} (hidx : s.idx = true) (hq : cap ≤ s.queue)
+    (hpc : ∀ w ∈ s.ws, w.pc = PC.out ∨ w.pc = PC.send ∨ w.pc = PC.wantPk) (hsend : ∃ w ∈ s.ws, w.pc = PC.send)
+    (hrd : ∃ w ∈ s.ws, w.rd = true) : ∀ a, step keep cap s a = none := by
+  have hheld : pkHeld s = true := by
+    obtain ⟨w, hw, hp⟩ := hsend
+    simp only [pkHeld, List.any_eq_true]
+    exact ⟨w, hw, by simp [holdsPk, hp]⟩
+  have hreaders : readers s ≠ 0 := by
+    intro h0
+    obtain ⟨w, hw, hr⟩ := hrd
+    have := readers_eq_zero.mp h0 w hw
+    rw [hr] at this; cases this
+  intro a
+  cases a with
+  | take => simp [step, hidx]
+  | index => simp [step, hreaders]
+  | begin i =>
+    cases hi : s.ws[i]? with
+    | none => simp [step, hi]
+    | some w => simp [step, hi, hidx]
+  | checked i =>
+    cases hi : s.ws[i]? with
+    | none => simp [step, hi]
+    | some w =>
+      have := hpc w (List.mem_of_getElem? hi)
+      have hne : w.pc ≠ PC.chk := by rcases this with h | h | h <;> simp [h]
+      simp [step, hi, hne]
+  | lockPk i =>
+    cases hi : s.ws[i]? with
+    | none => simp [step, hi]
+    | some w => simp [step, hi, hheld]
+  | added i full =>
+    cases hi : s.ws[i]? with
+    | none => simp [step, hi]
+    | some w =>
+      have := hpc w (List.mem_of_getElem? hi)
+      have hne : w.pc ≠ PC.inPk := by rcases this with h | h | h <;> simp [h]
+      simp [step, hi, hne]
+  | sent i =>
+    cases hi : s.ws[i]? with
+    | none => simp [step, hi]
+    | some w => simp [step, hi]; intro _; omega
+
 /-! ### a step bound: every executed step costs at least one unit of `measure` -/
 
 theorem executed_le_measure {keep : Bool} {cap : Nat} : ∀ (acts : List Act) (s : LSt), WF s →
